@@ -373,10 +373,13 @@ def run_mc(prop, tier, seed, res):
         "C10": [("dead", 15, 200)],
         "C02": [("stop", 25, 400), ("minreachrank", 48, 48)],
         "C05": [("stop", 20, 300), ("gap5", 16, 16)],
-        "C14": [("forced", 20, 128)],
+        "C14": [("forced", 20, 128), ("order3", 10, 48)],
+        "C04": [("order3", 8, 48), ("jump1", 0, 144)],
     }.get(prop, [])
     for fam, kq, kt in plan:
         k = kq if tier == "quick" else kt
+        if k == 0:
+            continue
         r = tlc.run("MC_Solver", env={"MC_FAMILY": fam, "GEN_K": k, "GEN_FAMILY": "x", "GEN_OUT": "x"},
                     workers=4 if tier == "quick" else 16, gc="parallel", heap="6g",
                     args=["-seed", str(seed)], timeout=7200)
